@@ -220,6 +220,35 @@ def runUncached (sh : Cache.Shared) (q : Query) : Cache.Shared Ã— Option Res :=
 def assemble (own obj : Cache.Shared) : Cache.Shared :=
   { obj with src := own.src, cache := own.cache, genPos := own.genPos }
 
+/-- a statement of an iterator of an INVALIDATED generation.  `finished`: that generation's generator
+    had already run to its end; `next()` on a finished generator raises StopIteration again WITHOUT
+    re-executing `self._len = total` (in the live machine this never happens: `_cache_complete` is
+    tested first) -/
+def stepStale (finished : Bool) (s : Cache.State) (t : Cache.Tid) : Option Cache.State :=
+  match Cache.step s t with
+  | none => none
+  | some s' =>
+    let at138 := match s.its[t]? with | some it => it.pc == .l138 | none => false
+    if finished && at138 && (s.sh.src[s.sh.genPos]?).isNone then
+      some { s' with sh := { s'.sh with len := s.sh.len } }
+    else some s'
+
+def nextValStale (fin : Bool) (s : Cache.State) (t : Cache.Tid) : Nat â†’ Cache.State Ã— Option Int
+  | 0 => (s, none)
+  | fuel + 1 => match stepStale fin s t with
+    | none => (s, none)
+    | some s' =>
+      if yieldedLen s t < yieldedLen s' t then
+        (s', match s'.its[t]? with | some it => it.yielded.getLast? | none => none)
+      else nextValStale fin s' t fuel
+
+def takeValsStale (fin : Bool) (s : Cache.State) (t : Cache.Tid) : Nat â†’ List Int â†’ Cache.State Ã— List Int
+  | 0, acc => (s, acc)
+  | k + 1, acc =>
+    match nextValStale fin s t (threadFuel s.sh) with
+    | (s', some v) => takeValsStale fin s' t k (acc ++ [v])
+    | (s', none) => (s', acc)
+
 /-- `list(islice(it, k))` on a kept iterator of a cached set -/
 def resumeCached (st : RSetState) (j : Nat) (h : Handle) (k : Nat) : RSetState Ã— Option Res :=
   let curGen := st.old.length
@@ -242,9 +271,13 @@ def resumeCached (st : RSetState) (j : Nat) (h : Handle) (k : Nat) : RSetState Ã
           ({ st with cur := s', handles := st.handles.set j { h with gen := curGen, tid := t } },
            some (takeObs s0 s' t vals))
         else
+          -- `o.sh.len` of an invalidated generation records whether its generator has finished
+          let fin := o.sh.len.isSome
           let s0 : Cache.State := { sh := assemble o.sh st.cur.sh, its := o.its }
-          let (s', vals) := takeVals s0 h.tid k []
-          let o' : Cache.State := { sh := { o.sh with cache := s'.sh.cache, genPos := s'.sh.genPos }, its := s'.its }
+          let (s', vals) := takeValsStale fin s0 h.tid k []
+          let fin' := if fin then o.sh.len else (if s'.sh.len != s0.sh.len then s'.sh.len else none)
+          let o' : Cache.State :=
+            { sh := { o.sh with cache := s'.sh.cache, genPos := s'.sh.genPos, len := fin' }, its := s'.its }
           let obj := st.cur.sh
           let obj' : Cache.Shared :=
             { src := obj.src, cache := obj.cache, genPos := obj.genPos, complete := s'.sh.complete,
